@@ -1561,6 +1561,13 @@ namespace bloch::compiler {
                                  "'" + fn->name + "' is already declared in this scope");
             }
             declareFunction(fn->name);
+            // Record the signature now, so that calls checked before the declaration is
+            // visited (from class bodies, or from functions declared earlier in the file)
+            // see the real parameter list and return type.
+            FunctionInfo info;
+            info.returnType = typeFromAst(fn->returnType.get());
+            for (auto& p : fn->params) info.paramTypes.push_back(typeFromAst(p->type.get()));
+            m_functionInfo[fn->name] = info;
         }
         for (auto& cls : program.classes)
             if (cls)
